@@ -861,8 +861,9 @@ class Evaluator:
         return pts
 
     # -- searches -----------------------------------------------------------------
-    def find(self, forced_pts):
-        """First accepted scene containing the forced points, or None."""
+    def find(self, forced_pts, limit=None):
+        """First accepted scene containing the forced points, or None.  `limit`: give up after
+        that many scenes (sticky search, see check_program); not a cap of the run."""
         if self.capped:
             return None
         left = self.max_exec - self.evals
@@ -870,10 +871,11 @@ class Evaluator:
             self.capped = True
             return None
         stats = None
-        for ex, res, stats in explorer.explore(lambda: self._once(forced_pts), max_executions=left):
+        budget = left if limit is None else min(left, limit)
+        for ex, res, stats in explorer.explore(lambda: self._once(forced_pts), max_executions=budget):
             if res is not None:
                 return res
-        if stats is not None and stats.capped:
+        if stats is not None and stats.capped and budget == left:
             self.capped = True
         return None
 
@@ -904,6 +906,7 @@ def check_program(item):
         "counters": {},
         "stages": [],
         "shrunk": False,
+        "shrunk_ratios": {},  # pass -> ratios pruned/original size of the objects it shrank
         "feasible": 0,
         "evals": 0,
         "judged": 0,
@@ -961,7 +964,23 @@ def check_program(item):
 
         nfeasible_scenes = 0
 
-        def search_focus(ev, side, fullc, coarsec, i, on_accept):
+        # Search modes.  Default: for a focus candidate every combination of partner candidates
+        # is tried until a scene is accepted.  "sticky" (programs whose objects are constrained
+        # independently of each other: several visible / contained objects): the partners first
+        # take the points of the last accepted scene, then at most STICKY_TRIES other
+        # combinations; partner lists start with the lattice of the partner's *pruned* region,
+        # most central points first (likely feasible), followed by the coarse lattice of the
+        # original region, and grow by the points found feasible while the partner was the focus.
+        # Both modes only ever report scenes that Scenic accepted.
+        sticky = spec.get("search") == "sticky" and nrand > 1
+        STICKY_TRIES = 4
+        STICKY_PRUNED_FOCUS = 96  # focus candidates per object on the pruned side (thinned lattice)
+        STICKY_INNER = 12  # points of the pruned region's lattice put in front of a partner list
+
+        def _same(p, q):
+            return _vec3(p) == _vec3(q)
+
+        def search_focus(ev, side, fullc, coarsec, i, on_accept, front=None):
             n_ok = 0
             for c in fullc[i] or []:
                 if ev.capped:
@@ -969,12 +988,53 @@ def check_program(item):
                 for j in side.bases:
                     if j != i:
                         side.cands[j] = coarsec[j]
-                        ev.order[j] = list(range(len(coarsec[j]))) if coarsec[j] is not None else None
-                r = ev.find({i: c})
+                        if coarsec[j] is None:
+                            ev.order[j] = None
+                        else:
+                            order = list(range(len(coarsec[j])))
+                            if front is not None and front.get(j, 0) < len(order):
+                                f = front.get(j, 0)
+                                order = [f] + order[:f] + order[f + 1 :]
+                            ev.order[j] = order
+                r = ev.find({i: c}, limit=STICKY_TRIES if front is not None else None)
                 if r is not None:
                     n_ok += 1
+                    if front is not None:
+                        for j, p in r["pts"].items():
+                            lst = coarsec.get(j)
+                            if lst is None:
+                                continue
+                            k = next((k for k, q in enumerate(lst) if _same(p, q)), None)
+                            if k is None:
+                                lst.append(p)
+                                k = len(lst) - 1
+                            front[j] = k
                     on_accept(i, c, r)
             return n_ok
+
+        def search_all(ev, side, fullc, coarsec, on_accept, only=None):
+            front = {} if sticky else None
+            todo = [i for i in side.bases if (only is None or i in only)]
+            counts = {}
+            for rnd in range(2 if sticky else 1):
+                again = []
+                for i in todo:
+                    if fullc[i] is None:
+                        continue
+                    counts[i] = search_focus(ev, side, fullc, coarsec, i, on_accept, front)
+                    if counts[i] == 0:
+                        again.append(i)
+                # sticky: an object examined before any scene was known is examined again
+                todo = again if (sticky and front and len(again) < len(counts)) else []
+            return counts
+
+        def central(pts):
+            if not pts:
+                return pts
+            cx = sum(p[0] for p in pts) / len(pts)
+            cy = sum(p[1] for p in pts) / len(pts)
+            cz = sum(p[2] for p in pts) / len(pts)
+            return sorted(pts, key=lambda p: (p[0] - cx) ** 2 + (p[1] - cy) ** 2 + (p[2] - cz) ** 2)
 
         p_failed = cp["hang"] or cp["p_error"] is not None
         P = cp["P"]
@@ -997,6 +1057,8 @@ def check_program(item):
                     if a is not None and b is not None and a.size is not None and b.size is not None:
                         if b.size < a.size * (1 - 1e-9):
                             res["shrunk"] = True
+                            for st in stage_sets[i]:
+                                res["shrunk_ratios"].setdefault(st, []).append(round(b.size / a.size, 3))
                         elif b.size > a.size * (1 + 1e-6):
                             bump("pruned_region_larger")
             res["stages"] = sorted({s for v in stage_sets.values() for s in v})
@@ -1078,7 +1140,7 @@ def check_program(item):
                 n = max(2, focusN // 2)
                 reg = sideP.bases[i][0]
                 tris = len(reg._samplingData[0]) if hasattr(reg, "_samplingData") else 1
-                budget = max(2048, 2 * sideU.stats.get(i, (0,))[0])
+                budget = max(2048, 2 * sideU.stats.get(i, (0,))[0]) if not sticky else 4 * sideU.stats.get(i, (128,))[0]
                 while n > 2 and tris * n ** (3 if spec.get("dim", 2) == 3 else 2) > budget:
                     n -= 1
                 return n
@@ -1086,6 +1148,10 @@ def check_program(item):
             sideP.prepare(NP_of, params["sampler_cap"])
             evP = Evaluator(sideP, params["N_partner"], params["max_evals"])
             fullP = {i: c for i, c in sideP.cands.items()}
+            if sticky:
+                for i, c in fullP.items():
+                    if c is not None and len(c) > STICKY_PRUNED_FOCUS:
+                        fullP[i] = c[:: -(-len(c) // STICKY_PRUNED_FOCUS)]
             coarseP = {}
             if nrand > 1:
                 for i, (reg, off, pir) in sideP.bases.items():
@@ -1093,6 +1159,16 @@ def check_program(item):
                         coarseP[i] = None
                     else:
                         coarseP[i], _, _ = sampler_candidates(pir.region, params["N_partner"], params["sampler_cap"])
+            if sticky:
+                for i, (reg, off, pir) in sideP.bases.items():
+                    if fullP[i] is None or coarse.get(i) is None:
+                        continue
+                    inner, _, _ = sampler_candidates(pir.region, max(3, params["N_partner"]), params["sampler_cap"])
+                    inner = central(inner)[:STICKY_INNER]
+                    regU, regP = sideU.bases[i][0], reg
+                    coarse[i] = [p for p in inner if regU.containsPoint(p)] + [p for p in coarse[i] if not any(_same(p, q) for q in inner)]
+                    coarseP[i] = inner + [p for p in coarseP[i] if not any(_same(p, q) for q in inner)]
+                    bump("sticky_partner_points", len(coarse[i]))
 
         # ---- U side --------------------------------------------------------------------
         if nrand == 0:
@@ -1103,8 +1179,7 @@ def check_program(item):
             if full[i] is None:
                 # original region random: handled as a partner only
                 bump("random_original_region")
-                continue
-            search_focus(evU, sideU, full, coarse, i, on_accept_U)
+        search_all(evU, sideU, full, coarse, on_accept_U)
         res["feasible"] = nfeasible_scenes
         res["evals"] += evU.evals
         res["capped"] = res["capped"] or evU.capped
@@ -1183,10 +1258,7 @@ def check_program(item):
                         f"the unpruned program under the same values",
                     )
 
-            for i in sideP.bases:
-                if i not in stage_sets or fullP[i] is None:
-                    continue
-                search_focus(evP, sideP, fullP, coarseP, i, on_accept_P)
+            search_all(evP, sideP, fullP, coarseP, on_accept_P, only={i for i in sideP.bases if i in stage_sets})
             res["evals"] += evP.evals
             res["capped"] = res["capped"] or evP.capped
             for k, v in evP.errors.items():
@@ -1230,6 +1302,7 @@ def run(ctx):
     fam = {}
     stage_fired = {s: 0 for s in STAGES}
     dist_fired = 0
+    multi_shrunk = {}  # pass -> programs in which it shrank >= 2 objects' regions by different amounts
     rh3_fired = 0  # three-object programs (relations with different targets) pruned by relative heading
     shrunk = feasible_programs = judged = evals = 0
     totals = {}
@@ -1247,6 +1320,9 @@ def run(ctx):
             dist_fired += 1
         if "relheading" in r["stages"] and r["family"] == "rh3":
             rh3_fired += 1
+        for st, ratios in r.get("shrunk_ratios", {}).items():
+            if len(set(ratios)) >= 2:
+                multi_shrunk[st] = multi_shrunk.get(st, 0) + 1
         shrunk += 1 if r["shrunk"] else 0
         feasible_programs += 1 if r["feasible"] else 0
         if not r["feasible"]:
@@ -1267,17 +1343,26 @@ def run(ctx):
             samples.append({"id": r["id"], "stages": r["stages"], "accepted_scenes": r["feasible"], "log": r.get("log", "")[:300]})
     if not specs:
         raise HarnessError("no programs")
+    vacuous = []
     if feasible_programs == 0 or judged == 0:
-        raise HarnessError("vacuous: no accepted lattice scene was judged against a pruned region")
+        vacuous.append("no accepted lattice scene was judged against a pruned region")
     if shrunk == 0:
-        raise HarnessError("vacuous: pruning never shrank a region")
+        vacuous.append("pruning never shrank a region")
     for s in STAGES:
         if stage_fired[s] == 0:
-            raise HarnessError(f"vacuous: {s} pruning never fired")
+            vacuous.append(f"{s} pruning never fired")
     if dist_fired == 0:
-        raise HarnessError("vacuous: no relative-heading pruning driven by a distance bound")
+        vacuous.append("no relative-heading pruning driven by a distance bound")
     if rh3_fired == 0:
-        raise HarnessError("vacuous: no three-object program was pruned by relative heading")
+        vacuous.append("no three-object program was pruned by relative heading")
+    for st in ("containment", "visibility"):
+        if multi_shrunk.get(st, 0) == 0:
+            vacuous.append(f"{st} pruning never shrank two objects of one program by different amounts")
+    if vacuous:
+        if not ctx.violations:
+            raise HarnessError("vacuous: " + "; ".join(vacuous))
+        # violations were found: report them (exit 1) instead of hiding them behind exit 2
+        ctx.notes.append("vacuity guards that would have failed without the violations: " + "; ".join(vacuous))
     slow.sort(reverse=True)
     ctx.cov.update(
         evaluations=evals,
@@ -1288,6 +1373,7 @@ def run(ctx):
         programs_without_accepted_scene=sorted(infeasible_ids)[:40],
         programs_where_pruning_shrank_region=shrunk,
         pruning_fired=dict(stage_fired, distance_bound=dist_fired, relheading_with_relations_to_two_targets=rh3_fired),
+        programs_with_two_objects_shrunk_differently=multi_shrunk,
         base_points_judged=judged,
         skipped_touching=totals.get("skipped_touching", 0),
         counters=totals,
